@@ -166,6 +166,10 @@ class Gen:
     def gen_call_tree(self, depth):
         rng = self.rng
         fns = [f for f, (ps, isf) in self.routines.items() if isf and len(ps) <= 2 and f != getattr(self, 'defining', None)]
+        if self.in_matrix:
+            # inside a matrix block only pure built-ins are called: a routine could issue device commands
+            # of its own, which the documentation does not define inside a block (hidden NAME/MATRIX registers)
+            fns = []
         if fns and rng.random() < 0.6:
             f = rng.choice(fns)
             n = len(self.routines[f][0])
@@ -397,8 +401,9 @@ class Gen:
         if color and r < 0.12 and (multis or rng.random() < 0.3):
             light = rng.choice(multis) if multis and rng.random() < 0.9 else None
             nm = light[0] if light else self.light_name()
-            nz = light[3][1] if light else 8
             # zone numbers stay inside the light's strip (the simulated device indexes a list)
+            by_name = [l for l in self.world if l[0] == nm and l[3][0] == 'multi']
+            nz = by_name[0][3][1] if by_name else 8
             za = rng.randint(0, nz - 1)
             zb = rng.randint(za, nz - 1)
             a = (str(za), '(RLit (LInt %d))' % za) if rng.random() < 0.7 else ('{%d + 0}' % za, '(RExpr (EBin BAdd (ELit (LInt %d)) (ELit (LInt 0))))' % za)
